@@ -24,19 +24,32 @@ Definition find_by {A} (id : A -> N) (d : A) (l : list A) (k : N) : A :=
 Definition all_pairs {A} (f : A -> A -> bool) (l : list A) : bool :=
   forallb (fun a => forallb (f a) l) l.
 
+(* the comparator tabulated once per candidate set (candidate ids are unique): same function on
+   the candidates, evaluated n^2 times instead of once per comparison of every permutation *)
+Definition memo_lt {A} (id : A -> N) (lt : A -> A -> bool) (l : list A) : A -> A -> bool :=
+  let tab := map (fun a => (id a, map (fun b => (id b, lt a b)) l)) l in
+  fun a b => match alookup (id a) tab with
+             | Some row => match alookup (id b) row with Some v => v | None => lt a b end
+             | None => lt a b
+             end.
+Fixpoint nodupN (l : list N) : bool :=
+  match l with [] => true | x :: t => negb (memN x t) && nodupN t end.
+
 (* ---------------------------------------------------------------- queue slices *)
 Definition qsort_case := (N * bool * list queue * list (list N * list N))%type.
 
 Definition qsort_check1 (c : qsort_case) : list N :=
   let '(st, cp, qs, perms) := c in
-  let lt := queue_lt st cp in
-  let klt := queue_keys_lt st cp in
+  if negb (nodupN (map q_id qs)) then [1%N] else
+  let lt := memo_lt q_id (queue_lt st cp) qs in
+  let klt := memo_lt q_id (queue_keys_lt st cp) qs in
   (* the pending tie-break never decides on this candidate set: the order is a strict weak order *)
   let plain := all_pairs (fun a b => Bool.eqb (lt a b) (klt a b)) qs in
   dedup (flat_map (fun '(inp, out) =>
     let li := map (find_by q_id dummyQ qs) inp in
     let lo := map (find_by q_id dummyQ qs) out in
-    (if ids_eqb (map q_id (sortQueue st cp li)) out then [] else [1%N]) ++
+    (* = sortQueue st cp li (C19Proofs.sortQueue_unfold) *)
+    (if ids_eqb (map q_id (if N.eqb st 1 || cp then go_isort lt li else li)) out then [] else [1%N]) ++
     (if plain && negb (ids_eqb (map q_id (ssort klt li)) out) then [1%N] else []) ++
     (if same_ids inp out then
        if respects lt lo then [] else if pending_window lt klt lo then [3%N] else [2%N]
@@ -50,12 +63,14 @@ Definition dummyA : app := mkA 0 None None 0 0.
 
 Definition asort_check1 (c : asort_case) : list N :=
   let '(which, g, apps, perms) := c in
-  let lt := app_lt which g in
+  if negb (nodupN (map a_id apps)) then [1%N] else
+  let lt := memo_lt a_id (app_lt which g) apps in
   let dom := forallb (app_ok which g) apps in      (* inside the domain of swo_app_* *)
   dedup (flat_map (fun '(inp, out) =>
     let li := map (find_by a_id dummyA apps) inp in
     let lo := map (find_by a_id dummyA apps) out in
-    (if ids_eqb (map a_id (sortApps which g li)) out then [] else [1%N]) ++
+    (* = sortApps which g li *)
+    (if ids_eqb (map a_id (if (which <? 4)%N then go_isort lt li else li)) out then [] else [1%N]) ++
     (if dom && negb (ids_eqb (map a_id (ssort lt li)) out) then [1%N] else []) ++
     (if same_ids inp out then
        if dom then (if respects lt lo then [] else [2%N]) else []
